@@ -13,7 +13,8 @@ import Lemmas.KP
   The frame laws are those of `Sim` (a refused call changes nothing); the success laws for
   creation (`openW_none`, `mkdirAll_ok`) ask for `¬ Hid`, those for removal (`remove_ok`,
   `removeAll_ok`) for `¬ Par`; `removeAll_ok` is only claimed for a key with nothing below it
-  (what `restoreFile` needs; `HiddenFS.RemoveAll` is a depth-bounded walk).
+  (what `restoreFile` needed while it made room with `RemoveAll`; since the C13 fix it uses `Remove`
+  and `Lemmas/NRestore.lean` needs `remove_ok` only; `HiddenFS.RemoveAll` is a depth-bounded walk).
 -/
 namespace BFS.N
 
